@@ -17,6 +17,9 @@ pub enum Obj {
     F64(f64),
     Modulus(u64),
     VecU64(Vec<u64>),
+    VecBool(Vec<bool>),
+    VecU8(Vec<u8>),
+    VecVecBool(Vec<Vec<bool>>),
     VecModulus(Vec<u64>),
     Scheme(u8),
     Params(EncryptionParameters),
@@ -52,6 +55,9 @@ pub enum Tag {
     F64,
     Modulus,
     VecU64,
+    VecBool,
+    VecU8,
+    VecVecBool,
     VecModulus,
     Scheme,
     Params,
@@ -87,6 +93,9 @@ impl Tag {
             Tag::F64 => "f64",
             Tag::Modulus => "Modulus",
             Tag::VecU64 => "Vec<u64>",
+            Tag::VecBool => "Vec<bool>",
+            Tag::VecU8 => "Vec<u8>",
+            Tag::VecVecBool => "Vec<Vec<bool>>",
             Tag::VecModulus => "Vec<Modulus>",
             Tag::Scheme => "SchemeType",
             Tag::Params => "EncryptionParameters",
@@ -132,6 +141,9 @@ impl Obj {
             Obj::F64(_) => Tag::F64,
             Obj::Modulus(_) => Tag::Modulus,
             Obj::VecU64(_) => Tag::VecU64,
+            Obj::VecBool(_) => Tag::VecBool,
+            Obj::VecU8(_) => Tag::VecU8,
+            Obj::VecVecBool(_) => Tag::VecVecBool,
             Obj::VecModulus(_) => Tag::VecModulus,
             Obj::Scheme(_) => Tag::Scheme,
             Obj::Params(_) => Tag::Params,
@@ -167,6 +179,9 @@ impl Obj {
             Obj::F64(v) => v.serialize(w),
             Obj::Modulus(v) => Modulus::new(*v).serialize(w),
             Obj::VecU64(v) => v.serialize(w),
+            Obj::VecBool(v) => v.serialize(w),
+            Obj::VecU8(v) => v.serialize(w),
+            Obj::VecVecBool(v) => v.serialize(w),
             Obj::VecModulus(v) => mods(v).serialize(w),
             Obj::Scheme(c) => scheme_from(*c).serialize(w),
             Obj::Params(p) => p.serialize(w),
@@ -202,6 +217,9 @@ impl Obj {
             Tag::F64 => Obj::F64(f64::deserialize(r)?),
             Tag::Modulus => Obj::Modulus(Modulus::deserialize(r)?.value()),
             Tag::VecU64 => Obj::VecU64(Vec::<u64>::deserialize(r)?),
+            Tag::VecBool => Obj::VecBool(Vec::<bool>::deserialize(r)?),
+            Tag::VecU8 => Obj::VecU8(Vec::<u8>::deserialize(r)?),
+            Tag::VecVecBool => Obj::VecVecBool(Vec::<Vec<bool>>::deserialize(r)?),
             Tag::VecModulus => Obj::VecModulus(Vec::<Modulus>::deserialize(r)?.iter().map(|m| m.value()).collect()),
             Tag::Scheme => Obj::Scheme(SchemeType::deserialize(r)? as u8),
             Tag::Params => Obj::Params(EncryptionParameters::deserialize(r)?),
@@ -250,6 +268,9 @@ impl Obj {
             Obj::F64(v) => v.serialized_size(),
             Obj::Modulus(v) => Modulus::new(*v).serialized_size(),
             Obj::VecU64(v) => v.serialized_size(),
+            Obj::VecBool(v) => v.serialized_size(),
+            Obj::VecU8(v) => v.serialized_size(),
+            Obj::VecVecBool(v) => v.serialized_size(),
             Obj::VecModulus(v) => mods(v).serialized_size(),
             Obj::Scheme(c) => scheme_from(*c).serialized_size(),
             Obj::Params(p) => p.serialized_size(),
@@ -343,6 +364,9 @@ impl Obj {
             (Obj::F64(a), Obj::F64(b)) => if a.to_bits() == b.to_bits() { Ok(()) } else { ne("f64", a, b) },
             (Obj::Modulus(a), Obj::Modulus(b)) => if a == b { Ok(()) } else { ne("modulus", a, b) },
             (Obj::VecU64(a), Obj::VecU64(b)) => if a == b { Ok(()) } else { ne("vec<u64>", a, b) },
+            (Obj::VecBool(a), Obj::VecBool(b)) => if a == b { Ok(()) } else { ne("vec<bool>", a, b) },
+            (Obj::VecU8(a), Obj::VecU8(b)) => if a == b { Ok(()) } else { ne("vec<u8>", a, b) },
+            (Obj::VecVecBool(a), Obj::VecVecBool(b)) => if a == b { Ok(()) } else { ne("vec<vec<bool>>", a, b) },
             (Obj::VecModulus(a), Obj::VecModulus(b)) => if a == b { Ok(()) } else { ne("vec<modulus>", a, b) },
             (Obj::Scheme(a), Obj::Scheme(b)) => if a == b { Ok(()) } else { ne("scheme", a, b) },
             (Obj::Params(a), Obj::Params(b)) => params_same(a, b),
@@ -567,7 +591,18 @@ pub fn gen_cipher(rng: &mut Prng, w: &World, allow_seed: bool, max_size: usize) 
         4 => {
             // symmetric with seed
             let p = w.random_plain(rng);
-            w.encryptor.encrypt_symmetric_new(&p)
+            let mut c = w.encryptor.encrypt_symmetric_new(&p);
+            // one in four: the object that held the seeded encryption is used again as the destination
+            // of another encryption (same shape): what it held before must leave no trace
+            if rng.chance(1, 4) {
+                let p2 = w.random_plain(rng);
+                if rng.coin() {
+                    w.encryptor.encrypt(&p2, &mut c);
+                } else {
+                    w.encryptor.encrypt_symmetric(&p2, &mut c);
+                }
+            }
+            c
         }
         _ => {
             // seeded zero encryption at some data level
@@ -670,7 +705,15 @@ pub fn gen_obj(rng: &mut Prng, w: &World, kind: &str) -> Option<Obj> {
             if rng.coin() { Obj::Modulus(*rng.pick(&w.spec.q)) } else { Obj::Scheme(w.spec.scheme) }
         }
         "vec" => {
-            if rng.coin() {
+            // the generic Vec<T> (de)serializer with every scalar element type, nested too
+            if rng.chance(1, 3) {
+                let k = rng.range(0, 12);
+                match rng.below(3) {
+                    0 => Obj::VecBool((0..k).map(|_| rng.coin()).collect()),
+                    1 => Obj::VecU8((0..k).map(|_| rng.below(256) as u8).collect()),
+                    _ => Obj::VecVecBool((0..rng.range(0, 4)).map(|_| (0..rng.range(0, 5)).map(|_| rng.coin()).collect()).collect()),
+                }
+            } else if rng.coin() {
                 let k = rng.range(0, 9);
                 Obj::VecU64((0..k).map(|_| rng.next_u64() >> rng.below(64)).collect())
             } else {
